@@ -43,6 +43,15 @@ Write(l, v) ==
        /\ fresh' = p[3] /\ fault' = FaultAfter
        /\ hist' = Append(hist, [act |-> "write", lba |-> l, val |-> v, out |-> p[1], data |-> 0])
     /\ UNCHANGED <<node, exported>>
+\* WRITE SAME(16) with NDOB = 1: a write without a data-out phase (the block becomes zero)
+Zero(l) ==
+    /\ Room
+    /\ LET p == Path IN
+       /\ disk' = IF p[2] THEN [disk EXCEPT ![l] = 0] ELSE disk
+       /\ mine' = IF p[1] = "ok" THEN [mine EXCEPT ![l] = 0] ELSE mine
+       /\ fresh' = p[3] /\ fault' = FaultAfter
+       /\ hist' = Append(hist, [act |-> "zero", lba |-> l, val |-> 0, out |-> p[1], data |-> 0])
+    /\ UNCHANGED <<node, exported>>
 Read(l) ==
     /\ Room
     /\ LET p == Path IN
@@ -80,7 +89,7 @@ Export == /\ Len(hist) = MaxLen /\ ~exported
           /\ exported' = TRUE /\ UNCHANGED <<node, fresh, disk, mine, fault, hist>>
 
 Next == \/ \E l \in LBAs, v \in Vals : Write(l, v)
-        \/ \E l \in LBAs : Read(l) \/ Reread(l)
+        \/ \E l \in LBAs : Read(l) \/ Reread(l) \/ Zero(l)
         \/ Reattach
         \/ \E a \in {"replug", "unplug", "plug"} : Env(a)
         \/ \E st \in FaultStatuses : Arm(st)
@@ -91,5 +100,5 @@ Spec == Init /\ [][Next]_vars
 \* a successful one arrived, whatever happened to the node in between
 SameMedium == mine = disk
 \* with detection on, a command that succeeded went through a handle of the node now at the path
-FreshAfterSuccess == (Detect /\ hist # <<>> /\ hist[Len(hist)].act \in {"read", "reread", "write", "reattach"} /\ hist[Len(hist)].out = "ok") => fresh
+FreshAfterSuccess == (Detect /\ hist # <<>> /\ hist[Len(hist)].act \in {"read", "reread", "write", "zero", "reattach"} /\ hist[Len(hist)].out = "ok") => fresh
 =============================================================================
